@@ -163,6 +163,18 @@ def cmp_implies_programs(rng, tier):
         if rng.random() < 0.5:
             a, b = b, a
         P.add(["cmp_implies", bdd_sx(a), bdd_sx(b)])
+    # logically equal / comparable operands where one side is a valid NON-canonical array of the same function
+    for _ in range(150 if tier == "quick" else 3000):
+        nv = rng.choice([2, 3, 4, 5])
+        a = random_bdd(rng, nv)
+        b = noncanonical_variant(rng, a)
+        k = rng.random()
+        if k < 0.3:
+            a, b = b, a
+        elif k < 0.45:
+            b = noncanonical_variant(rng, b)
+        if is_wf(a) and is_wf(b):
+            P.add(["cmp_implies", bdd_sx(a), bdd_sx(b)])
     return P.progs
 
 
